@@ -91,6 +91,11 @@ def make_workload(rng, n_threads, max_tests, runlevel=True):
                 test["tags_in"] = [["g%d" % t], ["l0"]]  # the test sets a tag the run level may have
             elif r < 0.78:
                 test["tags_in"] = [[""], []]             # a tag that is the empty string is a tag
+            if "tags_in" in test and rng.random() < 0.3:
+                # ... and then takes back what it just did (or re-adds what it just removed)
+                test["tags_in2"] = [list(test["tags_in"][1]), list(test["tags_in"][0])]
+            if test["t0"] is not None and rng.random() < 0.12:
+                test["t1"] = test["t0"]            # ends at the very instant it started
             if rng.random() < 0.25:
                 test["tags_after"] = [["z%d" % uid], []]
             if rng.random() < 0.3:
@@ -156,6 +161,9 @@ def worker(fwd, ops, errors):
                     fwd.tags(new, gone)
                     new.add("scribble")
                     gone.clear()
+                if "tags_in2" in spec:
+                    # a second change inside the same test, competing with the first for a tag: the later one counts
+                    fwd.tags(set(spec["tags_in2"][0]), set(spec["tags_in2"][1]))
                 if not spec.get("no_times"):
                     fwd.time(BASE + datetime.timedelta(seconds=spec["t1"]))
                 name = spec["outcome"]
@@ -188,6 +196,9 @@ def model_tags(ops):
             if "tags_in" in op[1]:
                 cur |= set(op[1]["tags_in"][0])
                 cur -= set(op[1]["tags_in"][1])
+            if "tags_in2" in op[1]:
+                cur |= set(op[1]["tags_in2"][0])
+                cur -= set(op[1]["tags_in2"][1])
             out[op[1]["id"]] = frozenset(cur)
     return out
 
@@ -505,7 +516,14 @@ def x_free(ctx, case):
     return True
 
 
-SUBCHECKS = {"schedule": x_schedule, "free": x_free}
+def x_cts(ctx, case):
+    """The forwarders as ConcurrentTestSuite wires them up - one per worker, all on ONE semaphore - under the
+    controlled scheduler (the machinery and the monitors are C13's): one test at a time at the caller's result."""
+    from . import c13
+    return c13.x_schedule(ctx, case)
+
+
+SUBCHECKS = {"schedule": x_schedule, "free": x_free, "cts": x_cts}
 NO_SHARDS = False
 
 
@@ -544,6 +562,11 @@ def run(ctx):
                                              "fault": [task, m, occ]}, sample=(n % 97 == 0))
     ctx.note_space("single fault: target raises at occurrence 1..3 of each of 11 methods by each of 2 threads, "
                    "several random schedules each", n)
+    for workers in ([{"tests": 2}, {"tests": 2}], [{"tests": 1}, {"tests": 2}, {"tests": 1}]):
+        for rep in range(ctx.scale(6, 200)):
+            if ctx.mine():
+                ctx.execute("cts", {"kind": "cts", "workers": workers, "mode": rng.choice(["random", "pct"]),
+                                    "rseed": rng.randrange(10 ** 9), "p": rng.choice([0.3, 0.5, 0.7])})
     # ---- random / PCT schedules of larger shapes with run-level calls, tags, faults ------------------
     ctx.notes["random_cases"] = True
     for i in range(ctx.scale(2500, 200000)):
